@@ -29,6 +29,7 @@
 #include <unistd.h>
 #endif
 #include <string.h>
+#include <stdio.h>
 
 int read_password(const char *prompt, char *password, size_t len)
 {
@@ -38,10 +39,15 @@ int read_password(const char *prompt, char *password, size_t len)
     if (!pwd)
         return 0;
     plen = strlen(pwd);
-    if (plen >= len)
-        plen2 = len - 1;
-    else
-        plen2 = plen;
+    if (plen >= len) {
+        /* Refuse it like -p and -k do: cutting it would make every password
+         * with the same first len - 1 bytes open the file */
+        ascon_clean(pwd, plen);
+        fprintf(stderr, "password is too long, maximum is %u bytes\n",
+                (unsigned)(len - 1));
+        return 0;
+    }
+    plen2 = plen;
     memcpy(password, pwd, plen2);
     password[plen2] = '\0';
     ascon_clean(pwd, plen);
